@@ -123,6 +123,20 @@ def run(ck: Checker):
     # hand, and explicit causes / contexts are part of "the child's traceback text"
     for c in [n for n in walk_deep_func(init.node) if isinstance(n, ast.Call) and (dotted(n.func) or '').endswith('format_exception')]:
         ch = [k.value for k in c.keywords if k.arg == 'chain']
+        # what is formatted is the traceback at hand: `format_exception(type(exc), exc, <tb>)` with <tb> the traceback object
+        # the caller passed, or the exception's own `__traceback__` on the branch that found one -- the one-argument form
+        # formats `exc.__traceback__` whatever was passed, so a traceback handed over separately (the exception's own having
+        # been cleared) is ignored and the remote text has no frames
+        tbp = ps[2] if len(ps) > 2 else 'tb'
+        if len(c.args) >= 3:
+            third = norm_text(c.args[2])
+            if third not in (tbp, f'{ps[1]}.__traceback__'):
+                probs.append(f'L{c.lineno}: the traceback formatted is `{third}`, neither the `{tbp}` argument nor `{ps[1]}.__traceback__`')
+        else:
+            # which branch is this call on?  under `isinstance(tb, TracebackType)` the argument must be used
+            guarded = [n_ for n_ in walk_deep_func(init.node) if isinstance(n_, ast.If) and 'TracebackType' in norm_text(n_.test) and any(x is c for b_ in n_.body for x in ast.walk(b_))]
+            if guarded:
+                probs.append(f'L{c.lineno}: `{norm_text(c)[:50]}` formats `{ps[1]}.__traceback__` on the branch where the caller passed a traceback object `{tbp}`: the traceback that was handed over is ignored — when the exception\'s own traceback has been cleared (kept separately by the caller) the remote text has no frames')
         lim = [k.value for k in c.keywords if k.arg == 'limit'] + ([c.args[3]] if len(c.args) > 3 else [])
         if lim and not is_none(lim[0]):
             probs.append(f'L{c.lineno}: the traceback is formatted with limit={norm_text(lim[0])}: a positive limit keeps the OUTERMOST frames — for a traceback deeper than the limit the text silently loses the innermost frames, i.e. the site where the exception was raised')
